@@ -13,7 +13,7 @@ CLAIMED = {
                 'that adds a vertex, is cleared after the Tds is re-keyed, the duplicate query dominates every '
                 'insertion attempt, candidates are re-resolved before the distance test (a float comparison, not a bit-pattern or hash key), the coordinates filed in the index '
                 'are read back from vertex storage, and slot-map insertion '
-                'happens only behind the UUID vacancy check; a triangulation value handed a non-empty Tds (from_tds, rebuild candidates) starts without an index. This is the cache-coherence and gating half of the '
+                'happens only behind the UUID vacancy check; a triangulation value handed a non-empty Tds (from_tds, rebuild candidates) starts without an index; the cell size of every insertion-time index depends on the duplicate tolerance. This is the cache-coherence and gating half of the '
                 'property; the tolerance arithmetic is not decided.',
         'note': 'Trusted: rustc MIR and callee resolution; external slot-map/hash-map methods classified by name '
                 '(hand-out vs mutating) in engine/rules/flow.py; one assumed-infeasible edge '
@@ -116,7 +116,7 @@ CLAIMED['C05'] = {
     'text': 'Static: the validator stack checked as a dominance / error-propagation structure: each cumulative validator '
             'passes (success edge) every leaf checker of its level and the lower cumulative validator before Ok; the '
             'guarantee-dependent link checkers are passed on the true edge of their predicates; no validator drops or '
-            'swallows a checker result; each diagnostic report reaches the leaves its validator reaches. '
+            'swallows a checker result; each diagnostic report reaches the leaves its validator reaches; each Level 1-2 leaf (transitively) reads the data its invariant is about. '
             'Decides "cumulative = conjunction of levels" and "nothing is skipped or swallowed"; not that each '
             'leaf detects its fault class.',
     'note': 'Trusted: rustc MIR; the Level 1-3 leaf tables in engine/rules/tables.py; a checker returning a verdict '
@@ -176,7 +176,7 @@ CLAIMED['C07'] = {
             'builders; the 12 Edit-API methods and the kernel layers are clean on failure (C03 engine); every simplex hash '
             'used by the guards is computed over the same canonical (u64-sorted) key sequence at the index builder and at '
             'every lookup; the kernel reports success only behind neighbour wiring, removal of the old cells and the '
-            'coherent-orientation normalisation, for every k. Decides "no mutation before the guards, no unvalidated context, no trace on failure, guards and '
+            'coherent-orientation normalisation, for every k; each context builder refuses dimensions below the size of its move. Decides "no mutation before the guards, no unvalidated context, no trace on failure, guards and '
             'index agree on keys, the structural post-steps are never skipped"; not manifold preservation, counts or invertibility.',
     'note': 'Trusted: as for C03; 4 assumed-infeasible exits in the kernel and known finding F2 (2 exits) are shared with C03.',
     'technique': 'must-pass-through (dominance), construction-site enumeration and rollback dataflow over rustc MIR',
